@@ -48,3 +48,9 @@ VARIANTS += [
       rule='C19-CHECKMODE', key='plain unittest.TestCase'),
     M('C19', 'refactor-listing-test-on-testcase-class', E(TC2, "            if self.check and not isinstance(test, unittest.suite.TestSuite):", "            if self.check and isinstance(test, unittest.TestCase):"), kind='refactor'),
 ]
+
+VARIANTS += [
+    M('C19', 'pytest-listing-dedupes-by-bare-class-name', [E(PYT, "                    if cls not in shownclasses:", "                    if cls.__name__ not in shownclasses:"),
+                                                           E(PYT, "                    shownclasses.add(cls)", "                    shownclasses.add(cls.__name__)")],
+      rule='C19-PYTABLE', key='--istagged=True'),
+]
